@@ -5,6 +5,7 @@ import (
 	"encoding/json"
 	"fmt"
 	"net/url"
+	"runtime"
 	"strings"
 	"sync"
 	"testing"
@@ -23,6 +24,7 @@ type concIn struct {
 	Queries []jtuple `json:"queries"`
 	Rounds  int      `json:"rounds"`
 	Par     int      `json:"par"`
+	Only    string   `json:"only"` // "cancel": only the rounds with abandoned requests (run in a binary without the race detector, too)
 }
 
 type concReq struct {
@@ -118,6 +120,7 @@ func famConc(t *testing.T) {
 	kinds := []string{"rest_check", "rest_batch", "rest_expand", "rest_list", "grpc_check", "grpc_list"}
 	// reference answers of the cancel rounds, computed before any request of this process was abandoned
 	refs := map[int][]string{}
+	durs := map[int][]time.Duration{}
 	for round := 0; round < in.Rounds; round++ {
 		if round%sn != si || round%3 != 2 {
 			continue
@@ -126,7 +129,10 @@ func famConc(t *testing.T) {
 			e := concRegistry(t, &in, in.States[round%len(in.States)])
 			for _, r := range cancelReqs(&in, round) {
 				r.timeout = 0
+				e.concDo(r) // warm up: the first request of a registry pays for lazily created members
+				t0 := time.Now()
 				refs[round] = append(refs[round], e.concDo(r))
+				durs[round] = append(durs[round], time.Since(t0))
 			}
 		})
 	}
@@ -136,7 +142,10 @@ func famConc(t *testing.T) {
 		}
 		S := in.States[round%len(in.States)]
 		if round%3 == 2 {
-			t.Run(fmt.Sprintf("c%d", round), func(t *testing.T) { cancelRound(t, &in, round, S, refs[round], out) })
+			t.Run(fmt.Sprintf("c%d", round), func(t *testing.T) { cancelRound(t, &in, round, S, refs[round], durs[round], out) })
+		}
+		if in.Only == "cancel" {
+			continue
 		}
 		t.Run(fmt.Sprintf("r%d", round), func(t *testing.T) {
 			reg := newRegistry(t, regOpts{opl: in.Def.Cfg.opl(), gdepth: 8})
@@ -216,7 +225,7 @@ func cancelReqs(in *concIn, round int) []concReq {
 	for i := 0; i < in.Par; i++ {
 		rq := concReq{kind: kinds[(i+round)%len(kinds)], q: in.Queries[(i*5+round)%len(in.Queries)].api()}
 		if i%2 == 1 {
-			rq.timeout = time.Duration(150*(1+(i*7+round)%24)) * time.Microsecond
+			rq.timeout = -1 // a client that gives up; when is decided from the time the request takes alone
 		}
 		reqs = append(reqs, rq)
 	}
@@ -239,9 +248,19 @@ func failedReply(s string) bool {
 		strings.Contains(s, "context deadline exceeded") || strings.Contains(s, "context canceled")
 }
 
-func cancelRound(t *testing.T, in *concIn, round int, S []int, ref []string, out *ndWriter) {
+func cancelRound(t *testing.T, in *concIn, round int, S []int, ref []string, durs []time.Duration, out *ndWriter) {
+	// schedules: these rounds alternate between one, two and all processors
+	if procs := []int{1, 2, 0}[(round/3)%3]; procs > 0 {
+		defer runtime.GOMAXPROCS(runtime.GOMAXPROCS(procs))
+	}
 	e := concRegistry(t, in, S)
 	reqs := cancelReqs(in, round)
+	for i := range reqs {
+		if reqs[i].timeout != 0 {
+			// somewhere between 5% and 95% of the way through the request as it ran alone
+			reqs[i].timeout = durs[i]*time.Duration(5+(i*37+round*11)%91)/100 + time.Microsecond
+		}
+	}
 	results := make([]string, len(reqs))
 	var wg sync.WaitGroup
 	start := make(chan struct{})
@@ -255,7 +274,6 @@ func cancelRound(t *testing.T, in *concIn, round int, S []int, ref []string, out
 	}
 	close(start)
 	wg.Wait()
-	waitNoKetoGoroutines(2e9)
 	var diffs []map[string]any
 	gaveUp := 0
 	for i := range reqs {
@@ -268,15 +286,24 @@ func cancelRound(t *testing.T, in *concIn, round int, S []int, ref []string, out
 				"concurrent": trunc(results[i], 400), "alone": trunc(ref[i], 400), "phase": "next to abandoned requests"})
 		}
 	}
-	// afterwards, one by one, without any deadline
+	// afterwards, one by one: an abandoned request, then a request without any deadline, and so on
 	for i := range reqs {
 		r := reqs[i]
-		r.timeout = 0
+		if r.timeout > 0 {
+			if got := e.concDo(r); failedReply(got) {
+				gaveUp++
+			} else if got != ref[i] {
+				diffs = append(diffs, map[string]any{"kind": r.kind, "query": r.q.String(), "abandoned_client": true, "concurrent": trunc(got, 400),
+					"alone": trunc(ref[i], 400), "phase": "alone, after requests were abandoned"})
+			}
+			continue
+		}
 		if got := e.concDo(r); got != ref[i] {
 			diffs = append(diffs, map[string]any{"kind": r.kind, "query": r.q.String(), "concurrent": trunc(got, 400), "alone": trunc(ref[i], 400),
-				"phase": "alone, after requests were abandoned"})
+				"phase": "alone, right after a request was abandoned"})
 		}
 	}
+	waitNoKetoGoroutines(2e9)
 	out.write(map[string]any{"cancel_round": round, "requests": 2 * len(reqs), "abandoned": gaveUp, "diffs": diffs})
 }
 
